@@ -20,12 +20,10 @@ import (
 	"verif/harness/vf"
 )
 
-// ---- finding classes (open defects of the unchanged tree, see /verif/fixes) ----
-
-const (
-	findZeroPenalty = "builder expels a validator for a zero-amount penalty without putting the evidence into the slash data; importer rejects the block"
-	findHeadMoved   = "replaySlashing reads the chain head instead of the block's parent: a block carrying slash data re-executes differently when the local head is not its parent"
-)
+// Two classes were open findings of the original tree and are repaired in /repo
+// (e1d256e: a zero-amount penalty did not reach the slash data; ec9154c:
+// replaySlashing read the chain head).  Their witnesses stay in the corpus;
+// a reappearance is an ordinary (unlisted) violation.
 
 type Hit struct {
 	What    string   `json:"what"`
@@ -205,8 +203,10 @@ func randHistory(r *vf.Rng, maxBlocks int) *History {
 					e.Kind = "badsig"
 				case x < 13:
 					e.Kind = "badidx"
-				case x < 18:
+				case x < 16:
 					e.Kind = "onesign"
+				case x < 19:
+					e.Kind = "samehash"
 				case x < 22:
 					e.Kind = "unknown"
 				case x < 25:
@@ -281,22 +281,6 @@ func digest(obs []*BlockObs) string {
 
 // ---- oracle --------------------------------------------------------------------------
 
-// zeroPenaltyClass: the builder's pool held an evidence that reaches doPenalize
-// (known type, two signatures, round = parent, verified, first of its signer in
-// the block, signer exists) with floor(token*fraction/100) = 0.
-func zeroPenaltyClass(o *BlockObs) bool {
-	seen := map[int64]bool{}
-	for _, e := range o.Evs {
-		if e.Type == 1 && e.NSigns >= 2 && e.Round == o.Number-1 && e.Verified && !seen[e.SignerID] && e.Exists {
-			seen[e.SignerID] = true
-			if !e.PenaltyPos {
-				return true
-			}
-		}
-	}
-	return false
-}
-
 type verdicts struct {
 	hits   []Hit
 	known  []Hit
@@ -351,25 +335,15 @@ func judge(h *History, obs []*BlockObs, crashed string, v *verdicts) {
 		if !h.Plain && h.Params.Freq > 0 && (o.Number+1)%h.Params.Freq == 0 {
 			v.counts["period_end_blocks"]++
 		}
-		zp := zeroPenaltyClass(o)
 		if !o.Imported || o.ImportErr != "" {
-			if zp {
-				v.counts["finding_zero_penalty"]++
-				add(&v.known, findZeroPenalty, o, o.ImportErr)
-			} else {
-				v.counts["import_rejected"]++
-				add(&v.hits, "a block assembled by the builder was not accepted by the importing node", o, o.ImportErr)
-			}
+			v.counts["import_rejected"]++
+			add(&v.hits, "a block assembled by the builder was not accepted by the importing node", o, o.ImportErr)
 			break // everything after a rejected block is unknown ancestry
 		}
 		v.counts["import_accepted"]++
 		if len(o.ReexecDiff) > 0 {
-			if zp {
-				add(&v.known, findZeroPenalty, o, strings.Join(o.ReexecDiff, "; "))
-			} else {
-				v.counts["reexec_differs"]++
-				add(&v.hits, "re-executing the same block on the same parent state gave different results", o, strings.Join(o.ReexecDiff, "; "))
-			}
+			v.counts["reexec_differs"]++
+			add(&v.hits, "re-executing the same block on the same parent state gave different results", o, strings.Join(o.ReexecDiff, "; "))
 			break
 		}
 		for _, t := range o.TamperAccepted {
@@ -378,13 +352,10 @@ func judge(h *History, obs []*BlockObs, crashed string, v *verdicts) {
 		}
 		v.counts["tamper_rejected"] += o.TamperRejected
 		if o.HeadMovedDiff != "" {
-			if o.SlashData != "" {
-				v.counts["finding_head_moved"]++
-				add(&v.known, findHeadMoved, o, o.HeadMovedDiff)
-			} else {
-				v.counts["head_moved_differs"]++
-				add(&v.hits, "re-executing a block without slash data depends on the position of the chain head", o, o.HeadMovedDiff)
-			}
+			v.counts["head_moved_differs"]++
+			add(&v.hits, "re-executing a block on its own parent state depends on the position of the chain head", o, o.HeadMovedDiff)
+		} else {
+			v.counts["head_moved_identical"]++
 		}
 		// receipts: one per transaction plus the module receipt; cumulative gas ends at the header's gas used
 		if !h.Plain {
@@ -398,6 +369,9 @@ func judge(h *History, obs []*BlockObs, crashed string, v *verdicts) {
 			switch {
 			case e.Confirmed:
 				v.counts["evidence_confirmed"]++
+				if !e.PenaltyPos {
+					v.counts["evidence_confirmed_zero_amount"]++
+				}
 			case e.Pending:
 				v.counts["evidence_pending"]++
 			default:
@@ -456,14 +430,14 @@ func casesOf(h *History, o *BlockObs) (out []string, descs []interface{}) {
 			if e.Verified {
 				signer = fmt.Sprintf("(Some %d%%N)", e.SignerID)
 			}
-			es = append(es, fmt.Sprintf("mkEvCase %s %d%%N %d%%N %s %s %s %s %s", vf.Bool(e.Type == 1), e.NSigns, e.Round, signer,
+			es = append(es, fmt.Sprintf("mkEvCase %s %d%%N %s %d%%N %s %s %s %s %s", vf.Bool(e.Type == 1), e.NSigns, vf.Bool(e.Differ), e.Round, signer,
 				vf.Bool(e.Exists), vf.Bool(e.PenaltyPos), vf.Bool(e.Confirmed), vf.Bool(e.Pending)))
 		}
 		emit(fmt.Sprintf("CEvid %d%%N %d%%N %s", o.Number-1, h.Params.MaxExpired, vf.List(es)), "evidence")
 	}
 	// CRewards / CPeriod: only when nothing changed the statistics between the
 	// probe and rewardsToPool (no slash data) ...
-	if o.Before == nil || o.After == nil || o.SlashData != "" || zeroPenaltyClass(o) {
+	if o.Before == nil || o.After == nil || o.SlashData != "" {
 		return
 	}
 	b, a := o.Before, o.After
@@ -725,20 +699,9 @@ func replay(file string) {
 	for _, o := range obs {
 		fmt.Printf("block %d built=%v imported=%v err=%q txs=%d slash=%d bytes reexec=%v headmoved=%q\n", o.Number, o.Built, o.Imported, o.ImportErr, o.NTx, len(o.SlashData)/2, o.ReexecDiff, o.HeadMovedDiff)
 	}
-	for _, k := range v.known {
-		fmt.Printf("KNOWN-FINDING (block %d): %s: %s\n", k.Block, k.What, k.Detail)
-	}
 	if len(v.hits) > 0 {
 		fmt.Printf("ORACLE VIOLATION: %s (block %d): %s\n", v.hits[0].What, v.hits[0].Block, v.hits[0].Detail)
 		os.Exit(1)
-	}
-	if len(v.known) > 0 && os.Getenv("C06_STRICT") != "" {
-		fmt.Println("ORACLE VIOLATION:", v.known[0].What)
-		os.Exit(1)
-	}
-	if len(v.known) > 0 {
-		fmt.Println("no violation outside the listed findings on this history")
-		return
 	}
 	fmt.Println("property holds on this history")
 }
